@@ -609,3 +609,66 @@ def diff_content(a, b):
             return ("frames", "frame %d differs in %s" % (i, w), {"what": w, "gap": (not x["pts"] and not x["subs"]) or (not y["pts"] and not y["subs"])})
     if a["hdr"] != b["hdr"]: return ("header", "header counts/range/rate differ: %s vs %s" % (a["hdr"], b["hdr"]), {})
     return None
+
+# ---------------------------------------------------------------- C02: loaded object vs independent decode of the same bytes
+def c02_compare(d, spec):
+    out = []
+    def F(clause, detail, **w): out.append((clause, dict(w), detail))
+    H = spec["H"]; h = run.hdr(d)
+    def gp(gname, pname):
+        g = [x for x in spec["groups"] if x["name"] == "x" + gname.hex()]
+        if not g: return None
+        q = [p for p in spec["params"] if p["gid"] == g[0]["gid"] and p["name"] == "x" + pname.hex()]
+        return q[-1] if q else None
+    if int(h["zeros"]) != spec["zeros"]: F("leading_zeros", "library counts %s zero bytes before the header, the file has %d" % (h["zeros"], spec["zeros"]))
+    pairs = [("nbPoints", "nPoints"), ("nbAnalogsMeas", "analogPerFrame"), ("maxGap", "gap"), ("dataStart", "dataStart"), ("nbAnalogByFrame", "subframes"), ("rate", "rate"), ("nbEvents", "nEvents"), ("paramAddr", "paramBlock")]
+    for a, b in pairs:
+        if a == "nbAnalogByFrame" and int(H["analogPerFrame"]) == 0 and int(h["nbAnalogsMeas"]) == 0: continue   # no analog sample: the ratio is moot
+        if str(h[a]) != str(H[b]): F("header_" + a, "header %s: library %s, file %s" % (a, h[a], H[b]))
+    nfr = max(int(H["last"]) + 1 - int(H["first"]), 0)
+    if nfr > 0 or (int(H["nPoints"]) or int(H["analogPerFrame"])):
+        if (int(h["firstFrame"]) + 1) % 2**64 != int(H["first"]) or (int(h["lastFrame"]) + 1) % 2**64 != int(H["last"]):
+            F("header_frame_range", "frame range: library %s..%s (0-based), file %s..%s (1-based)" % (h["firstFrame"], h["lastFrame"], H["first"], H["last"]))
+    if d["HT"] != spec["evTimes"] or [str(x) for x in d["HD"]] != [str(x) for x in spec["evDisplay"]] or d["HL"] != spec["evLabels"]:
+        F("header_events", "event times/display flags/labels differ")
+    # groups by id
+    for g in spec["groups"]:
+        i = g["gid"] - 1
+        if i >= len(d["groups"]): F("groups", "group id %d missing in the library (%d groups)" % (g["gid"], len(d["groups"]))); break
+        G = d["groups"][i]
+        if (G["name"], G["locked"], G["desc"]) != (g["name"], g["locked"], g["desc"]):
+            F("groups", "group id %d: library (%s,%s,%s) file (%s,%s,%s)" % (g["gid"], G["name"], G["locked"], G["desc"], g["name"], g["locked"], g["desc"])); break
+    named = set(g["gid"] for g in spec["groups"])
+    for i, G in enumerate(d["groups"]):
+        if G["name"] != "x" and (i + 1) not in named: F("groups", "library has a group at id %d that the file does not define" % (i + 1)); break
+    # parameters per group id, in file order (a repeated name replaces the earlier one in place)
+    for gid in sorted(set(p["gid"] for p in spec["params"])):
+        want = []
+        for p in spec["params"]:
+            if p["gid"] != gid: continue
+            q = {"name": p["name"], "locked": p["locked"], "type": p["type"], "dims": p["dims"] if p["dims"] else [1], "vals": p["vals"], "desc": p["desc"]}
+            names = [w["name"] for w in want]
+            if q["name"] in names: want[names.index(q["name"])] = q
+            else: want.append(q)
+        got = d["groups"][gid - 1]["params"] if gid - 1 < len(d["groups"]) else []
+        got = [{k: P[k] for k in ("name", "locked", "type", "dims", "vals", "desc")} for P in got]
+        if want != got:
+            for a, b in zip(want, got):
+                if a != b:
+                    what = [k for k in a if a[k] != b[k]]
+                    F("parameters", "parameter %s of group id %d differs in %s: file %s / library %s" % (a["name"], gid, what, {k: a[k] for k in what}, {k: b[k] for k in what}), what=",".join(what), type=a["type"], ndims=len(a["dims"]))
+                    break
+            else: F("parameters", "group id %d: %d parameters in the file, %d in the library" % (gid, len(want), len(got)))
+            break
+    # frames: values, positional names with the unlabeled fall-back
+    lab = gp(b"POINT", b"LABELS"); alab = gp(b"ANALOG", b"LABELS")
+    lab = lab["vals"] if lab and lab["type"] == "C" else []
+    alab = alab["vals"] if alab and alab["type"] == "C" else []
+    if spec.get("nframes") != d["NF"]: F("frame_count", "library holds %d frames, the file %s" % (d["NF"], spec.get("nframes")))
+    else:
+        for i, (a, b) in enumerate(zip(d["frames"], spec["frames"])):
+            wantp = [((lab[j] if j < len(lab) else "x" + (b"unlabeled_point_%d" % j).hex()),) + tuple(p) for j, p in enumerate(b["pts"])]
+            if [tuple(p) for p in a["pts"]] != wantp: F("points", "frame %d: points differ from the file (value, residual or positional name)" % i); break
+            wants = [[((alab[j] if j < len(alab) else "x" + (b"unlabeled_analog_%d" % j).hex()), v) for j, v in enumerate(sf)] for sf in b["subs"]]
+            if [[tuple(c) for c in sf] for sf in a["subs"] if sf] != [sf for sf in wants if sf]: F("analogs", "frame %d: analog samples differ from the file" % i); break
+    return out
